@@ -1,4 +1,6 @@
 CONSTANTS
+  WithDone = FALSE
+  TrackerBug = "none"
   Shapes <- ShapesQuick
 SPECIFICATION Spec
 PROPERTIES Termination
